@@ -32,5 +32,212 @@ theorem removeValue_unscoped (p : Text) (d : Doc) (h1 : d.noTarget = none)
 theorem findAttrpathLeaf_single (ts : Node) (k : Text) : findAttrpathLeaf ts [k] = none := by
   simp [findAttrpathLeaf, walkAttrpathStack]
 
+/-- invariants the walks maintain: identities unique, names unique, the next `K` identities unused -/
+structure Inv (T : Node) (n K : Nat) : Prop where
+  ids : IdsOK T
+  keys : KeysOK T
+  fresh : FreshFor T n K
+
+/-- One creation step of a walk: a fresh binding `k = <fresh empty set>` is appended to the set found at
+    path `p`. -/
+theorem step_append (T : Node) (n K : Nat) (hinv : Inv T n (K + 2)) (p : List Text) (c : Nat)
+    (vs o : List Node) (m r : Bool) (hp : subAt T p = some (.set c vs o m r))
+    (k : Text) (hk : k ∉ Kids.keys (denoteL vs)) (hnone : ∀ x ∈ vs, isNamed k x = false)
+    (ne ml : Bool) (f : Node → Node)
+    (hf : ∀ vs o m r, ∃ o', f (.set c vs o m r) = .set c (vs ++ [.bind (n + 1) k ne (.set n [] [] ml false) [] []]) o' m r) :
+    Inv (updSet c f T) (n + 2) K ∧
+    subAt (updSet c f T) (p ++ [k]) = some (.set n [] [] ml false) ∧
+    denote (updSet c f T) = graft p (.node (denoteL vs ++ [(k, .node [])])) (denote T) := by
+  obtain ⟨o', e⟩ := hf vs o m r
+  have hden : denote (updSet c f T) = graft p (.node (denoteL vs ++ [(k, .node [])])) (denote T) := by
+    rw [denote_updSet_at f p T _ c hinv.ids hinv.keys hp rfl, e]; simp
+  have hperm := vIds_updSet_app _ f c hf p T _ hinv.ids hp rfl
+  have htp := treeAt_denote p T _ hinv.keys hp
+  refine ⟨⟨?_, ?_, ?_⟩, ?_, hden⟩
+  · -- identities
+    unfold IdsOK
+    rw [hperm.nodup_iff, List.nodup_append]
+    refine ⟨hinv.ids, by simp [vIds], ?_⟩
+    intro a ha b hb
+    have := hinv.fresh a ha
+    simp [vIds] at hb
+    omega
+  · -- names
+    unfold KeysOK
+    rw [hden]
+    refine nodup_graft p _ _ _ htp hinv.keys ?_
+    have hcur := nodup_treeAt p _ _ htp hinv.keys
+    simp only [denote_set, AttrTree.nodup_node] at hcur ⊢
+    exact AttrTree.nodupL_append_new k _ _ hcur (by simp [AttrTree.nodupL]) hk
+  · intro i hi
+    rw [hperm.mem_iff, List.mem_append] at hi
+    rcases hi with hi | hi
+    · have := hinv.fresh i hi; omega
+    · simp [vIds] at hi; omega
+  · rw [subAt_append, subAt_updSet f p T _ c hinv.ids hp rfl, e]
+    simp only [Option.bind_some, subAt]
+    have := (stepInto_of_split c o' m r (n + 1) k ne (.set n [] [] ml false) [] [] vs [] hnone).2
+    rw [this]
+
+theorem isNamed_bindValue (k : Text) (b : Node) (h : isNamed k b = true) : ∃ v, b.bindValue? = some v := by
+  obtain ⟨i, ne, val, bf, af, rfl⟩ := (isNamed_iff k b).mp h
+  exact ⟨val, rfl⟩
+
+theorem findBinding_isNamed (vs : List Node) (k : Text) (b : Node) (h : findBinding vs k = some b) :
+    isNamed k b = true := by
+  rw [findBinding_eq] at h; exact List.find?_some h
+
+theorem setGetItem_err (cur : Node) (k : Text) (e : Err) (h : setGetItem cur k = .error e) :
+    findBinding cur.setValues k = none ∧ inheritMentions cur.setValues k = false := by
+  unfold setGetItem at h
+  cases hf : findBinding cur.setValues k with
+  | some b =>
+    obtain ⟨v, hv⟩ := isNamed_bindValue k b (findBinding_isNamed _ _ _ hf)
+    simp [hf, hv] at h
+  | none =>
+    simp only [hf] at h
+    cases hi : inheritMentions cur.setValues k with
+    | true => simp [hi] at h
+    | false => exact ⟨rfl, rfl⟩
+
+theorem setGetItem_ok (cur : Node) (k : Text) (v : Node) (hk : plainKey k = true)
+    (h : setGetItem cur k = .ok v) :
+    stepInto cur k = some v ∨
+    (findBinding cur.setValues k = none ∧ inheritMentions cur.setValues k = true ∧ v = .ident k) := by
+  unfold setGetItem at h
+  cases hf : findBinding cur.setValues k with
+  | some b =>
+    obtain ⟨v', hv⟩ := isNamed_bindValue k b (findBinding_isNamed _ _ _ hf)
+    simp only [hf, hv] at h
+    injection h with h; subst h
+    exact Or.inl (by simp [stepInto, hf, hv])
+  | none =>
+    simp only [hf] at h
+    cases hi : inheritMentions cur.setValues k with
+    | true => simp only [hi, if_true] at h; injection h with h; exact Or.inr ⟨rfl, rfl, h.symm⟩
+    | false =>
+      simp only [hi, Bool.false_eq_true, if_false] at h
+      unfold plainKey at hk
+      cases hs : splitAttrpath k with
+      | error e => simp [hs] at h
+      | ok segs =>
+        simp only [hs, decide_eq_true_eq] at hk
+        simp [hs, hk] at h
+
+/-- what the last step of `set` needs of the set it lands in -/
+def FinalOK (par : Node) (final : Text) : Prop :=
+  (∀ b, findBinding par.setValues final = some b → ∀ val, b.bindValue? = some val → isIdentNode val = false) ∧
+  inheritMentions par.setValues final = false
+
+/-- the last step of `set` ran on `par` from `d1` and ended in `d'` -/
+def FinalStep (ts par : Node) (wl : Bool) (final : Text) (v : Node) (d1 d' : Doc) : Prop :=
+  (∀ b, findBinding par.setValues final = some b → assignExisting ts par wl b v d1 = (.ok (), d')) ∧
+  (findBinding par.setValues final = none → setSetItem par final v d1 = (.ok (), d'))
+
+theorem FreshFor.mono {T : Node} {n K K' : Nat} (h : FreshFor T n K) (hk : K' ≤ K) : FreshFor T n K' := by
+  intro i hi; have := h i hi; omega
+
+theorem resolveParentWalk_nil (cm : Bool) (cur : Node) (d : Doc) :
+    resolveParentWalk cm cur [] d = (.ok cur, d) := rfl
+
+theorem subAt_empty_set (n : Nat) (ml r : Bool) (o : List Node) (q : List Text) (par : Node)
+    (h : subAt (.set n [] o ml r) q = some par) : q = [] ∧ par = .set n [] o ml r := by
+  cases q with
+  | nil => simp at h; exact ⟨rfl, h.symm⟩
+  | cons k ks => simp [subAt, stepInto, setValues, findBinding] at h
+
+/-- Lemma N: `_resolve_npath_parent(create_missing=True)` from the set at path `p`, followed by the last
+    step, refines `specSetK` below `p`. -/
+theorem nested_set_refines (ts : Node) (wl : Bool) (final : Text) (v : Node) (ks : List Text) :
+    ∀ (d : Doc) (cur : Node) (p : List Text) (parent : Node) (d1 d' : Doc),
+    Inv d.target d.next (2 * ks.length) → subAt d.target p = some cur → cur.isSet = true →
+    (∀ k ∈ ks, plainKey k = true) →
+    (∀ par, subAt d.target (p ++ ks) = some par → FinalOK par final) →
+    resolveParentWalk true cur ks d = (.ok parent, d1) →
+    FinalStep ts parent wl final v d1 d' →
+    Frame d d' ∧ ∃ Y, specSetK v (denote cur).kids (ks ++ [final]) = some Y ∧
+      denote d'.target = graft p (.node Y) (denote d.target) := by
+  induction ks with
+  | nil =>
+    intro d cur p parent d1 d' hinv hp hset _ hfin hw hfs
+    rw [resolveParentWalk_nil] at hw
+    injection hw with h1 h2; injection h1 with h1; subst h1; subst h2
+    have hok := hfin cur (by simpa using hp)
+    obtain ⟨d'', e1, e2, hfr, _, hd⟩ := finalSet_denote ts cur wl p final v d hinv.ids hinv.keys hp hset hok.1 hok.2
+    have : d' = d'' := by
+      cases hf : findBinding cur.setValues final with
+      | some b => have a := hfs.1 b hf; rw [e1 b hf] at a; injection a with _ a; exact a.symm
+      | none => have a := hfs.2 hf; rw [e2 hf] at a; injection a with _ a; exact a.symm
+    subst this
+    exact ⟨hfr, _, by simp [specSetK], hd⟩
+  | cons k ks ih =>
+    intro d cur p parent d1 d' hinv hp hset hplain hfin hw hfs
+    obtain ⟨c, vs, o, m, r, rfl⟩ := (isSet_iff cur).mp hset
+    have htp := treeAt_denote p d.target _ hinv.keys hp
+    have hcurn := nodup_treeAt p _ _ htp hinv.keys
+    simp only [denote_set, AttrTree.nodup_node] at hcurn
+    simp only [resolveParentWalk] at hw
+    cases hg : setGetItem (.set c vs o m r) k with
+    | ok val =>
+      simp only [hg] at hw
+      cases val with
+      | set s2 vs2 o2 m2 r2 =>
+        simp only at hw
+        rcases setGetItem_ok _ k _ (hplain k (by simp)) hg with hst | ⟨_, _, hbad⟩
+        · -- descend into an existing set
+          obtain ⟨_, _, _, _, i, ne, bf, af, pre, post, e, hpre⟩ := stepInto_some _ k _ hst
+          injection e with e1 e2 e3 e4 e5; subst e1 e2 e3 e4 e5
+          have hp2 : subAt d.target (p ++ [k]) = some (.set s2 vs2 o2 m2 r2) := by
+            rw [subAt_append, hp]; simp [subAt, hst]
+          have hinv2 : Inv d.target d.next (2 * ks.length) :=
+            ⟨hinv.ids, hinv.keys, hinv.fresh.mono (by simp only [List.length_cons]; omega)⟩
+          obtain ⟨hfr, Y, hY, hd⟩ := ih d _ (p ++ [k]) parent d1 d' hinv2 hp2 rfl
+            (fun k' hk' => hplain k' (by simp [hk'])) (by simpa using hfin) hw hfs
+          obtain ⟨hk, _⟩ := keys_split k pre post i ne _ bf af hcurn
+          obtain ⟨hl, hu, _⟩ := lookup_split k (denoteL pre) (denoteL post) (denote (.set s2 vs2 o2 m2 r2)) hk
+          refine ⟨hfr, Kids.upsert k (.node Y) (denoteL (pre ++ .bind i k ne (.set s2 vs2 o2 m2 r2) bf af :: post)), ?_, ?_⟩
+          · have hne : ks ++ [final] ≠ [] := by simp
+            simp only [denote_set, AttrTree.kids] at hY
+            rw [List.cons_append, denote_set, AttrTree.kids,
+              specSetK_node v _ (denoteL vs2) k _ hne (by simpa using hl), hY]
+            rfl
+          · rw [hd, graft_append p [k] _ _ _ htp, denote_set, graft_single]
+        · cases hbad
+      | _ => simp [EditM.throw] at hw
+    | error e =>
+      obtain ⟨hnone, hinh⟩ := setGetItem_err _ k e hg
+      simp only [hg, Bool.not_true, Bool.false_eq_true, if_false, setSid?, EditM.bind_apply, fresh_apply,
+        setMultiline] at hw
+      obtain ⟨d2, e2, hfr2, hn2, ht2⟩ := setSetItem_fresh (.set c vs o m r) k (.set d.next [] [] m false) c
+        { d with next := d.next + 1 } hnone rfl
+      simp only [e2] at hw
+      have hkk : k ∉ Kids.keys (denoteL vs) := not_mem_keys_denoteL k vs (findBinding_none _ _ hnone) hinh
+      have hinvK : Inv d.target d.next (2 * ks.length + 2) :=
+        ⟨hinv.ids, hinv.keys, hinv.fresh.mono (by simp only [List.length_cons]; omega)⟩
+      obtain ⟨hinv2, hp2, hden2⟩ := step_append d.target d.next (2 * ks.length) hinvK p c vs o m r hp k hkk
+        (findBinding_none _ _ hnone) false m
+        (ordF (.bind (d.next + 1) k false (.set d.next [] [] m false) [] []) ∘
+          appF (.bind (d.next + 1) k false (.set d.next [] [] m false) [] []))
+        (fun vs o m r => by simp only [Function.comp, appF, ordF]; split <;> exact ⟨_, rfl⟩)
+      simp only at ht2 hn2
+      rw [← ht2] at hinv2 hp2 hden2
+      have hn2' : d2.next = d.next + 2 := by omega
+      rw [← hn2'] at hinv2
+      have hfin2 : ∀ par, subAt d2.target ((p ++ [k]) ++ ks) = some par → FinalOK par final := by
+        intro par hpar
+        rw [subAt_append, hp2] at hpar
+        obtain ⟨_, rfl⟩ := subAt_empty_set _ _ _ _ _ _ hpar
+        exact ⟨fun b hb => by simp [setValues, findBinding] at hb, by simp [setValues, inheritMentions]⟩
+      obtain ⟨hfr, Y, hY, hd⟩ := ih d2 _ (p ++ [k]) parent d1 d' hinv2 hp2 rfl
+        (fun k' hk' => hplain k' (by simp [hk'])) hfin2 hw hfs
+      refine ⟨((Frame.next d _).trans hfr2).trans hfr, Kids.upsert k (.node Y) (denoteL vs), ?_, ?_⟩
+      · have hne : ks ++ [final] ≠ [] := by simp
+        simp only [denote_set, AttrTree.kids, denoteL_nil] at hY
+        rw [List.cons_append, denote_set, AttrTree.kids,
+          specSetK_none v _ k _ hne ((Kids.lookup_eq_none_iff k _).mpr hkk), hY]
+        rfl
+      · rw [hd, hden2, graft_append_graft p [k] _ _ _ _ htp, graft_single, Kids.upsert_of_not_mem k _ _ hkk,
+          Kids.upsert_append_right k _ _ _ hkk]
+        simp
 
 end Nima
